@@ -93,6 +93,58 @@ CLAIMED["C06"] = (
     "DESIGN.md §4 C06",
 )
 
+GRAPH_NOTE = (
+    "Instantiation: GraphImpl<ArrStorage, ArrGraph> -- the real generic graph/search code over an array-backed "
+    "implementation of the code base's own GraphData trait (8 slots); the thin DbVec adapter GraphDataStorage is not in "
+    "these harnesses. Ids passed to GraphImpl respect what DbImpl::graph_index guarantees (sign matches the element kind, "
+    "not i64::MIN). Stubs: fmt::format, DbError::new. Outside: the DbImpl cascade to values/aliases/indexes, removal by "
+    "alias/search, anything beyond the stated slot/operation bounds."
+)
+CLAIMED["C08"] = (
+    "Real GraphImpl operations with symbolic kind/arguments are mirrored step by step in a reference multigraph kept in "
+    "plain arrays; after every step the solver decides, for ALL symbolic arguments, id signs and freshness, node_count, "
+    "edge endpoints, per-node in/out counts (self-loops on both sides), both adjacency iterators exactly and newest-first, "
+    "the free-slot stack, full cascade on remove_node, and bit-identical arrays after a rejected insert_edge. Histories: "
+    "fixed short prefixes that set up each interesting shape (first/middle/last of an adjacency list, self-loops, parallel "
+    "edges, freed slots) followed by 1-3 symbolic operations (quick); 4 fully symbolic operations from the empty graph and "
+    "a deeper cascade (thorough).",
+    GRAPH_NOTE,
+    "DESIGN.md §4 C08",
+)
+CLAIMED["C18"] = (
+    "GraphImpl::iter/next_element over a graph produced by symbolic inserts and removals with slot reuse: the sequence is "
+    "exactly the live slots in increasing slot number, edges negative, removed slots absent, from any start index; "
+    "ElementSearch with an always-true handler and with a symbolic per-slot selection and Continue/Stop/Finish control on "
+    "concrete histories: examined once each in slot order, Stop does not end the scan, Finish does.",
+    GRAPH_NOTE + " ElementSearch over a fully symbolic history exceeded 10 GB; its symbolic-history part rests on the iterator harness.",
+    "DESIGN.md §4 C18",
+)
+CLAIMED["C14"] = (
+    "The four real traversals (BFS/DFS, forward/reverse), SearchImpl, the expand bodies and BitSet are run on eight graphs "
+    "built by the real insert/remove calls (triangle, cycle, parallel edges + self-loop + back edge, reused slots, cascade "
+    "removal, edge origins with and without older siblings) from every origin, and each result (sequence AND distances) "
+    "is compared with three independent oracles: a reference BFS/DFS over the mirrored model, fix-point reachability "
+    "(origin first, each reachable element exactly once, nothing else), and hand-derived literal sequences. Two lemmas are "
+    "symbolic: visited-on-pop (process_index twice) and BitSet set/value for symbolic indexes < 40.",
+    GRAPH_NOTE + " HONEST LIMIT: a symbolic graph or even a symbolic origin on a 3-node chain ran out of memory (VecDeque/"
+    "Vec/BitSet reallocation with symbolic lengths, ~1M SSA steps), so for the traversal harnesses the solver's quantifier "
+    "ranges over nothing but the enumerated graphs/origins; they are decided by CBMC but amount to exhaustive execution of "
+    "those cases, not to a claim for all graphs up to a size.",
+    "DESIGN.md §4 C14",
+)
+CLAIMED["C17"] = (
+    "PathSearch decomposed into step lemmas on the real code with symbolic costs: sort_paths leaves the cheapest path "
+    "last for any u64 costs; expand produces exactly the usable successors, newest edge first, cost +1 per passing and +2 "
+    "per failing element, skipping settled nodes and stopped elements; process_index handles destination / settled / open "
+    "end nodes correctly; plus end-to-end runs of GraphSearch::path on a single edge with every cost class and on twelve "
+    "invalid endpoint pairs (all give the empty result).",
+    GRAPH_NOTE + " HONEST LIMIT: PathSearch::search on anything larger than one edge never left symbolic execution "
+    "(500-900 s), so minimality of the returned path is NOT compared against a reference shortest path; the composition of "
+    "the lemmas into a correct best-first search is an argument, not a check. Extra stubs: <[Path]>::sort_by replaced by a "
+    "stable insertion sort using the real comparator, mem::swap by typed moves.",
+    "DESIGN.md §4 C17",
+)
+
 NOT_APPLICABLE = {
 }
 
